@@ -88,6 +88,137 @@ def atomOk : Atom → Bool
 
 def astDefined (ast : Ast) : Bool := ast.all atomOk
 
+/-! ## The notation itself: from pattern characters to the syntax tree, by the grammar of XBD 9.3.5 / XCU 2.13.1
+    (independent of the implementation's item stack and `make_range`)
+
+    bracket  := `[` [`!`|`^`] member+ `]`          — the first member may be `]`
+    member   := elem `-` elem   (a range; the second elem is not the closing `]`)
+              | elem
+    elem     := `[.`…`.]` | `[=`…`=]` | `[:`…`:]` | any other character (quoted or not)
+    Only unquoted `]` closes, only an unquoted `-` is the range operator, only unquoted `!`/`^` right after
+    the `[` complement, only an unquoted `[` opens an inner element (`parseInner`, shared with the model, scans
+    to the first adjacent unquoted `.]` / `=]` / `:]`). -/
+
+/-- one element at the head of `pc :: t`, and what follows it -/
+def specElem (pc : PatternChar) (t : List PatternChar) : BracketAtom × List PatternChar :=
+  if pc = .normal '[' then
+    match parseInner t with
+    | some (a, j) => (a, j)
+    | none => (.char '[', t)
+  else (.char pc.charValue, t)
+
+theorem specElem_length (pc : PatternChar) (t : List PatternChar) : (specElem pc t).2.length ≤ t.length := by
+  unfold specElem
+  split
+  · split
+    · rename_i a j h
+      have := parseInner_length t a j h
+      simp; omega
+    · simp
+  · simp
+
+/-- the members up to the closing bracket (`acc`: members read so far, last first) -/
+def specItems (acc : List BracketItem) (cs : List PatternChar) :
+    Option (List BracketItem × List PatternChar) :=
+  match cs with
+  | [] => none
+  | pc :: t =>
+    if pc = .normal ']' ∧ acc ≠ [] then some (acc.reverse, t)
+    else
+      match hr : (specElem pc t).2 with
+      | [] => none
+      | h :: r1 =>
+        if h = .normal '-' then
+          match hr1 : r1 with
+          | [] => none
+          | x :: r2 =>
+            if x = .normal ']' then
+              -- a `-` right before the closing bracket is a member
+              some ((BracketItem.atom (.char '-') :: .atom (specElem pc t).1 :: acc).reverse, r2)
+            else
+              have : (specElem x r2).2.length < t.length + 1 := by
+                have h1 := specElem_length pc t
+                have h2 := specElem_length x r2
+                rw [hr] at h1
+                subst hr1
+                simp at h1; omega
+              specItems (.range (specElem pc t).1 (specElem x r2).1 :: acc) (specElem x r2).2
+        else
+          have : r1.length < t.length := by
+            have h1 := specElem_length pc t
+            rw [hr] at h1
+            simp at h1; omega
+          specItems (.atom (specElem pc t).1 :: acc) (h :: r1)
+termination_by cs.length
+
+/-- a bracket expression, after its `[` -/
+def specBracket (cs : List PatternChar) : Option (Bracket × List PatternChar) :=
+  match cs with
+  | [] => none
+  | pc :: t =>
+    if pc = .normal '!' ∨ pc = .normal '^' then
+      (specItems [] t).map fun x => ({ complement := true, items := x.1 }, x.2)
+    else (specItems [] (pc :: t)).map fun x => ({ complement := false, items := x.1 }, x.2)
+
+theorem specElem_length' {pc : PatternChar} {t l : List PatternChar} (h : (specElem pc t).2 = l) :
+    l.length ≤ t.length := h ▸ specElem_length pc t
+
+theorem specItems_length (acc : List BracketItem) (cs : List PatternChar) (is : List BracketItem)
+    (r : List PatternChar) (h : specItems acc cs = some (is, r)) : r.length < cs.length := by
+  fun_induction specItems acc cs
+  all_goals first
+    | (simp at h; done)
+    | (simp at h; obtain ⟨_, rfl⟩ := h; simp; done)
+    | (rename_i hr
+       simp at h; obtain ⟨_, rfl⟩ := h
+       have h1 := specElem_length' hr
+       simp at h1 ⊢; omega)
+    | (rename_i hthis ih
+       have h2 := ih h
+       simp at hthis h2 ⊢; omega)
+
+theorem specBracket_length (cs : List PatternChar) (b : Bracket) (r : List PatternChar)
+    (h : specBracket cs = some (b, r)) : r.length < cs.length := by
+  unfold specBracket at h
+  split at h
+  · simp at h
+  · rename_i pc t
+    split at h
+    · cases hs : specItems [] t with
+      | none => rw [hs] at h; simp at h
+      | some x =>
+        rw [hs] at h; simp at h
+        obtain ⟨_, rfl⟩ := h
+        have := specItems_length [] t x.1 x.2 hs
+        simp; omega
+    · cases hs : specItems [] (pc :: t) with
+      | none => rw [hs] at h; simp at h
+      | some x =>
+        rw [hs] at h; simp at h
+        obtain ⟨_, rfl⟩ := h
+        exact specItems_length [] (pc :: t) x.1 x.2 hs
+
+/-- the whole pattern: unquoted `?` `*` and a closed bracket expression are special, everything else — quoted
+    characters, an unquoted `[` that no bracket expression follows — is an ordinary character -/
+def specParse (cs : List PatternChar) : Ast :=
+  match cs with
+  | [] => []
+  | pc :: t =>
+    if pc = .normal '?' then .anyChar :: specParse t
+    else if pc = .normal '*' then .anyString :: specParse t
+    else if pc = .normal '[' then
+      match h : specBracket t with
+      | some (b, j) =>
+        have : j.length < (pc :: t).length := by
+          have := specBracket_length _ _ _ h; simp; omega
+        .bracket b :: specParse j
+      | none => .char '[' :: specParse t
+    else .char pc.charValue :: specParse t
+termination_by cs.length
+
+/-- POSIX pattern matching on pattern characters: the declarative top of the Spec -/
+def posixMatch (pcs : List PatternChar) (s : List Char) : Bool := globMatch (specParse pcs) s
+
 /-- no bracket expression contains a multi-character collating element (`[.ab.]`, `[=ab=]`): the
     patterns inside POSIX's defined notation for the POSIX locale, which has no such elements -/
 def noMultiAtom : Atom → Bool
